@@ -11,10 +11,22 @@ StepBin(e) ==
   /\ e.ev = "bin"
   /\ \A i \in 1..Len(e.items) :
        LET it == e.items[i] IN
-       Report(e.case, BinFails(it[1], it[2], it[3], it[4], it[5]), it)
+       /\ Report(e.case, BinFails(it[1], it[2], it[3], it[4], it[5]), it)
+       /\ DriftReport(e.case, it[3] = Intersection(it[1], it[2]) /\ it[4] = Intersection(it[2], it[1]) /\ it[5] = Envelope(it[1], it[2]),
+                      "intersection_or_envelope_transcription", it)
 StepUn(e) ==
   /\ e.ev = "un"
   /\ Report(e.case, UnFails(e.r, e), [r |-> e.r])
+  /\ DriftReport(e.case,
+       /\ e.center = Center(e.r) /\ e.br = BottomRight(e.r) /\ e.wc = WithCenter(Center(e.r), SizeOf(e.r))
+       /\ \A a \in 1..9 : e.anchors[a] = AnchorPoint(e.r, a)
+       /\ \A i \in 1..Len(e.resized) : e.resized[i][4] = Resized(e.r, <<e.resized[i][1], e.resized[i][2]>>, e.resized[i][3])
+       /\ \A i \in 1..Len(e.rw) : e.rw[i][3] = ResizedWidth(e.r, e.rw[i][1], e.rw[i][2])
+       /\ \A i \in 1..Len(e.rh) : e.rh[i][3] = ResizedHeight(e.r, e.rh[i][1], e.rh[i][2])
+       /\ \A i \in 1..Len(e.off) : e.off[i][2] = Offset(e.r, e.off[i][1])
+       /\ (e.pts_logged = 0 \/ e.points = PointsSeq(e.r))
+       /\ \A i \in 1..Len(e.probes) : (e.probes[i][3] = 1) = ContainsT(e.r, <<e.probes[i][1], e.probes[i][2]>>),
+       "rectangle_method_transcription", [r |-> e.r])
 
 Next == /\ l <= NRec
         /\ LET e == Rec[l] IN StepCase(e) \/ StepBin(e) \/ StepUn(e)
